@@ -264,7 +264,51 @@ def execute_pair(ctx, case):
   ctx.note(case, nontrivial=n1 != n2, classes=['pair of near-identical names', case['backend']], key=[n1, n2, case['backend']])
 
 
+def migration_fault_cases():
+  for name in ('svc.req;env=prod', 'a;b=c;z=1', 'm;t=v'):
+    for err in ('EXDEV', 'EACCES'):
+      yield {'migrate': name, 'errno': err}
+
+
+def execute_migration(ctx, case):
+  """History + fault: a tagged series has a file under its readable name (written while TAG_HASH_FILENAMES was off);
+  with hashing on, exists() tries to move it to the hashed name and the rename fails.  Whatever exists() does about
+  that, the name -> path mapping of the instance stays what it was."""
+  import errno
+  name = case['migrate']
+  old_db, _, _ = get_db('whisper', False)
+  db, root, data_real = get_db('whisper', True)
+  before = db.getFilesystemPath(name)
+  try:
+    old_db.create(name, [(60, 10)], 0.5, 'average')
+  except Exception as e:  # noqa
+    if 'already exists' not in str(e):
+      raise HarnessError('could not create the old-style file: %r' % (e,))
+  real_rename = os.rename
+
+  def failing_rename(src, dst, *a, **kw):
+    raise OSError(getattr(errno, case['errno']), os.strerror(getattr(errno, case['errno'])))
+  os.rename = failing_rename
+  try:
+    try:
+      db.exists(name)
+    except OSError:
+      pass                      # reporting the failure is fine
+  finally:
+    os.rename = real_rename
+  after = db.getFilesystemPath(name)
+  other = db.getFilesystemPath('x.y;env=prod')
+  again = get_db('whisper', True)[0].getFilesystemPath('x.y;env=prod')
+  if after != before or '_DOT_' in other.replace(data_real, '') and '_DOT_' not in before.replace(data_real, ''):
+    ctx.fail('C14:nondeterministic-path', 'after a failed migration rename (%s) in exists(%r) the same instance maps %r to %r '
+             '(before: %r) and a fresh tagged name to %r' % (case['errno'], name, name, after, before, other), case, 'deterministic')
+    return
+  ctx.note(case, nontrivial=True, classes=['failed migration rename in exists()'], key=[name, case['errno']])
+
+
 def execute(ctx, case):  # noqa: dispatch
+  if 'migrate' in case:
+    return execute_migration(ctx, case)
   if 'threads' in case:
     return execute_threads(ctx, case)
   if 'pair' in case:
@@ -311,3 +355,6 @@ def run(ctx):
   sweep_sandbox(ctx, {'note': 'final sweep of the sandbox after all create calls'})
   run_given(ctx, thread_cases(), execute, ctx.scale(400, 2500), salt=2)
   run_given(ctx, pair_cases(), execute, ctx.scale(2500, 12000), salt=3)
+  if (ctx.shard or 0) == 0:
+    for case in migration_fault_cases():
+      execute(ctx, case)
